@@ -234,6 +234,42 @@ def gen_lean():
     d = _find_assign(rd, "_KEKULIZED_TO_AROMATIC_BOND_TYPE")
     kek = [(bt(k), bt(v)) for k, v in zip(d.keys, d.values)]
 
+    # header.py: slices of the second header line, widths/precisions of the writer's f-string, date format, name limit
+    hdr = ast.parse(open(os.path.join(base, "structure/io/mol/header.py")).read())
+    hde = _find_func(hdr, "deserialize")
+    hs_raw = []
+    for node in ast.walk(hde):
+        if isinstance(node, ast.Subscript) and isinstance(node.slice, ast.Slice) and isinstance(node.value, ast.Subscript) \
+                and isinstance(node.value.value, ast.Name) and node.value.value.id == "lines" \
+                and isinstance(node.value.slice, ast.Constant) and node.value.slice.value == 1:
+            lo, hi = node.slice.lower, node.slice.upper
+            if not (isinstance(lo, ast.Constant) and isinstance(hi, ast.Constant)):
+                raise ValueError("header.py: non-constant slice of lines[1]")
+            hs_raw.append((node.lineno, node.col_offset, lo.value, hi.value))
+    header_slices = [(a, b) for _, _, a, b in sorted(hs_raw)]
+    if len(header_slices) < 5:
+        raise ValueError("header.py: slices of lines[1] not found")
+    hse = _find_func(hdr, "serialize")
+    joined = [n for n in ast.walk(hse) if isinstance(n, ast.JoinedStr)
+              and sum(isinstance(v, ast.FormattedValue) for v in n.values) >= 5]
+    if len(joined) != 1:
+        raise ValueError("header.py: fixed-column f-string not found")
+    header_fields = []
+    for part in joined[0].values:
+        if isinstance(part, ast.FormattedValue):
+            spec = "".join(p_.value for p_ in part.format_spec.values if isinstance(p_, ast.Constant)) if part.format_spec else ""
+            mm = re.fullmatch(r"(>)(\d+)\.(\d+)", spec)
+            if not mm:
+                raise ValueError(f"header.py: unexpected format spec {spec!r}")
+            header_fields.append((int(mm.group(2)), int(mm.group(3))))
+        elif not (isinstance(part, ast.Constant) and part.value == "\n"):
+            raise ValueError("header.py: unexpected literal in the fixed-column line")
+    date_format = ast.literal_eval(_find_assign(hdr, "_DATE_FORMAT"))
+    name_limits = [intlit(n.comparators[0]) for n in ast.walk(hse) if isinstance(n, ast.Compare) and isinstance(n.ops[0], ast.Gt)
+                   and isinstance(n.left, ast.Call) and getattr(n.left.func, "id", "") == "len"]
+    if len(name_limits) != 1:
+        raise ValueError("header.py: molecule name length guard not found")
+
     def pairs(xs, f=str, g=str):
         return "[" + ", ".join(f"({f(a)}, {g(b)})" for a, b in xs) + "]"
 
@@ -272,6 +308,12 @@ def gen_lean():
         "def fromRdkit : List (String × Nat) := " + pairs(from_rd, q, str),
         "/-- `_KEKULIZED_TO_AROMATIC_BOND_TYPE`. -/",
         "def kekulizedToAromatic : List (Nat × Nat) := " + pairs(kek),
+        "/-- header.py: constant slices of `lines[1]` in `Header.deserialize`, in source order. -/",
+        "def headerSlices : List (Nat × Nat) := " + pairs(header_slices),
+        "/-- header.py: (width, precision) of the `>w.p` fields of the second header line in `Header.serialize`. -/",
+        "def headerFields : List (Nat × Nat) := " + pairs(header_fields),
+        f"def headerDateFormat : String := {q(date_format)}",
+        f"def headerNameLimit : Nat := {name_limits[0]}",
         "end BiotiteModel.Gen.C18", ""]
     return {"BiotiteModel/Gen/C18.lean": "\n".join(body)}
 
@@ -587,8 +629,11 @@ def _field(rng, w, allow_empty=True):
 
 
 def _header(rng):
-    t = rng.choice([None, None, [rng.randint(1, 12), rng.randint(1, 28), rng.choice([1969, 1999, 2000, 2024, 2068, rng.randint(1969, 2068)]),
-                                 rng.randint(0, 23), rng.randint(0, 59)]])
+    import calendar
+    yr = rng.choice([1969, 1999, 2000, 2024, 2068, 2023, rng.randint(1969, 2068)])
+    mo = rng.choice([2, 2, rng.randint(1, 12)])
+    dim = calendar.monthrange(yr, mo)[1]
+    t = rng.choice([None, None, [mo, rng.choice([1, dim, dim, rng.randint(1, dim)]), yr, rng.randint(0, 23), rng.randint(0, 59)]])
     while True:
         h = {"mol_name": _field(rng, rng.choice([5, 20, 80])), "initials": _field(rng, 2), "program": _field(rng, 8),
              "time": t, "dimensions": _field(rng, 2), "scaling_factors": _field(rng, 12), "energy": _field(rng, 12),
@@ -758,6 +803,9 @@ def cases(rng, tier):
 
 def corpus():
     return [
+        # limits of the fixed-column header (C18_header_truncation_defect): cut to the column, blanks lost
+        {"kind": "header-limits", "ops": ["HS\t\t\tABCDEFGHIJ\t-\t\t\t\t\t", "HD\t\t  ABCDEFGH" + " " * 42 + "\t",
+                                          "HS\t a \t\t\t-\t\t\t\t\t c", "HD\t a \t" + " " * 52 + "\t c"]},
         # COORDINATION through the RDKit bridge with use_dative_bonds=True (fixed defect, see known_findings.d/C18.json)
         {"kind": "rdkit", "mol": {"elems": ["FE", "N", "H"], "charges": [0, 0, 0],
                                   "coords": [[0.0, 0.0, 0.0], [1.5, 0.0, 0.0], [2.5, 0.0, 0.0]], "bonds": [[0, 1, 8], [1, 2, 1]]},
